@@ -192,6 +192,15 @@ impl MainState {
             .process_internal(conn_state)
             .await
             .map_err(|e| e.to_string());
+        // deliver what is already queued for this connection (its own echoes of the handled
+        // command) before the next command is read: results arrive in command order.
+        while let Ok(msg) = conn_state.receiver.try_recv() {
+            conn_state
+                .stream
+                .feed(msg)
+                .await
+                .map_err(|e| e.to_string())?;
+        }
         conn_state.stream.flush().await.map_err(|e| e.to_string())?;
         res
     }
